@@ -173,6 +173,102 @@ func checkC13(c *Ctx) {
 		}
 	}
 
+	// a selection belongs to the request that made it: its result is never parked in state of the processor (a memo of
+	// selections outlives the selector it was computed with, and a request holding the old snapshot keeps feeding it)
+	{
+		n := 0
+		for _, f := range fns {
+			eachInstr(f, func(in ssa.Instruction) {
+				call, ok := in.(*ssa.Call)
+				if !ok || !call.Call.IsInvoke() || call.Call.Method.Name() != "Select" || !strings.HasSuffix(typeShort(call.Call.Value.Type()), "ipSelector") {
+					return
+				}
+				n++
+				tainted := map[ssa.Value]bool{}
+				var work []ssa.Value
+				add := func(v ssa.Value) {
+					if v != nil && !tainted[v] {
+						tainted[v] = true
+						work = append(work, v)
+					}
+				}
+				add(call)
+				kept := ""
+				var keptPos token.Pos
+				procState := func(v ssa.Value) bool {
+					// storage reached from the receiver (or a package-level variable)
+					for i := 0; i < 12 && v != nil; i++ {
+						switch x := v.(type) {
+						case *ssa.Parameter:
+							return len(f.Params) > 0 && x == f.Params[0] && f.Signature.Recv() != nil
+						case *ssa.FreeVar, *ssa.Global:
+							return true
+						case *ssa.FieldAddr:
+							v = x.X
+						case *ssa.IndexAddr:
+							v = x.X
+						case *ssa.UnOp:
+							v = x.X
+						default:
+							return false
+						}
+					}
+					return false
+				}
+				for len(work) > 0 {
+					v := work[len(work)-1]
+					work = work[:len(work)-1]
+					if v.Referrers() == nil {
+						continue
+					}
+					for _, ref := range *v.Referrers() {
+						switch x := ref.(type) {
+						case *ssa.Extract:
+							if x.Index == 0 {
+								add(x)
+							}
+						case *ssa.MakeInterface, *ssa.ChangeType, *ssa.ChangeInterface, *ssa.Phi:
+							add(x.(ssa.Value))
+						case *ssa.Store:
+							if x.Val != v {
+								continue
+							}
+							if al, ok := x.Addr.(*ssa.Alloc); ok {
+								for _, r2 := range *al.Referrers() {
+									if u, ok := r2.(*ssa.UnOp); ok && u.Op == token.MUL {
+										add(u)
+									}
+								}
+							} else if procState(x.Addr) {
+								kept, keptPos = "stored into "+firstN(pathOf(x.Addr), 50), x.Pos()
+							}
+						case *ssa.MapUpdate:
+							if x.Value == v && procState(x.Map) {
+								kept, keptPos = "stored into the map "+firstN(pathOf(x.Map), 50), x.Pos()
+							}
+						case ssa.CallInstruction:
+							cn := calleeName(x.Common())
+							if strings.HasPrefix(cn, "(*sync.Map).") && len(x.Common().Args) > 0 && procState(x.Common().Args[0]) {
+								switch calleeShort(x.Common()) {
+								case "Store", "LoadOrStore", "Swap", "CompareAndSwap":
+									kept, keptPos = "kept in "+firstN(pathOf(x.Common().Args[0]), 50)+" ("+calleeShort(x.Common())+")", x.Pos()
+								}
+							}
+						}
+					}
+				}
+				title := fnName(f) + ": the selected phantom stays with the request"
+				if kept == "" {
+					r.OK("C13.2b", title, call.Pos(), "the result of Select reaches no field, map or sync.Map of the processor")
+				} else {
+					r.Bad("C13.2b", title, keptPos, fnName(f),
+						"the result of a selection is "+kept+": it outlives the selector snapshot it was computed with, so a request that overlaps a reload (and every later request that hits the memo) mixes phantoms of the old and the new subnet set")
+				}
+			})
+		}
+		_ = n
+	}
+
 	// C13.3 reload
 	r.Rule("C13.3", "ReloadSubnets: parse outside the lock, no call under the write lock, store only when the load succeeded", 3)
 	if f := c.fn("C13.3", "pkg/regserver/regprocessor", "RegProcessor", "ReloadSubnets"); f != nil {
